@@ -22,6 +22,8 @@ structure Snapshot where
   lastDefault : Option Nat
   last : Option Nat
   modes : List String        -- bottom first, encoded
+  /-- the same, decoded (`none`: some entry does not decode); not printed -/
+  dec : Option (List Mode) := none
   deriving Repr, DecidableEq, Inhabited
 
 structure Dump where
@@ -151,7 +153,7 @@ def parseSnapshot (s : String) : Option (Option Snapshot) :=
     let d ← depth.toNat?
     if modes.length ≠ d then none
     pure (some { cp := cp = "1", nesting := ← nest.toNat?, pending := pend.toList.map (· = '1'),
-                 lastDefault := ← o ld, last := ← o l, modes := modes })
+                 lastDefault := ← o ld, last := ← o l, modes := modes, dec := modes.mapM Mode.decode })
   | _ => none
 
 def parseOutcome (s : String) : Option Outcome :=
